@@ -180,3 +180,19 @@ PROPS["C09"] = dict(
     ],
     assumptions=["strings are sequences of Unicode scalar values; the model over N also covers surrogates, as the 'other' atom"],
 )
+
+PROPS["C13"] = dict(
+    level="proof", runs=[dict(bin="c13")],
+    quick=dict(n=700, shards=16),
+    thorough=dict(n=40000, shards=128, run_timeout=3000, coq_case_timeout=3000),
+    trusted_base=[
+        "model coq/C13/Model.v of sparql/src/{wrapper,exec,bgp,binding,matcher}.rs, matcher/_any_pattern.rs and NumModel.v of value/_number.rs (hand-written, after the fix: commits; pre-fix variants kept as select0/graph0/...)",
+        "spargebra's parsing/translation is trusted: the algebra given to the model and the oracle is read back from the Debug rendering of the parsed query",
+        "Dataset::quads_matching / graph_names contract (filter by matchers; inmem iteration order reproduced exactly for OFFSET/LIMIT cases); dataset iterator errors not modelled",
+        "Term::eq modelled by structural equality after lower-casing language tags at the harness boundary",
+        "expression/function library (expression.rs, function.rs incl. EXISTS) is a parameter of every theorem; coq/C13/Eval.v is a concrete transcription for the generated forms only",
+        "ORDER BY modelled as an arbitrary permutation (the order is C14)",
+        "independent oracle in c13.rs: SPARQL 1.1 section 18 by nested loops plus a section 17 evaluator for the generated expression forms",
+    ],
+    assumptions=["the dataset is a set of quads (NoDup)", "64-bit isize", "sort_unstable_by returns a permutation"],
+)
